@@ -711,3 +711,83 @@ Proof.
     + now apply trim_end_app_ws1.
     + apply ws_prefix_len_app_ws1; [discriminate | now apply trim_start_fixed_iff | assumption].
 Qed.
+
+(* ------------------------------------------------------------------------------------------------ *)
+(* Part 4: decimal numbers                                                                          *)
+(* ------------------------------------------------------------------------------------------------ *)
+Lemma digit_is_digit x : x < 10 -> is_digit (48 + x) = true.
+Proof. intro H. unfold is_digit. apply andb_true_iff. split; apply N.leb_le; lia. Qed.
+
+Lemma dec_render_fuel_digits f : forall n acc,
+  n < 2 ^ N.of_nat f -> (0 < f)%nat ->
+  exists k, forall a, dec_digits a (dec_render_fuel f n acc) = dec_digits (a * 10 ^ k + n) acc.
+Proof.
+  induction f as [|f IH]; intros n acc Hn Hf; [lia|]. cbn [dec_render_fuel].
+  assert (Hm : n mod 10 < 10) by (apply N.mod_lt; lia).
+  destruct (N.eqb_spec (n / 10) 0) as [E|E].
+  - exists 1. intro a'. cbn [dec_digits]. rewrite digit_is_digit by assumption.
+    assert (X : forall x, 48 + x - 48 = x) by (intro x; lia). rewrite X, N.pow_1_r.
+    assert (D : n = 10 * (n / 10) + n mod 10) by (apply N.div_mod; lia).
+    rewrite E, N.mul_0_r, N.add_0_l in D. now rewrite <- D.
+  - assert (Hq : n / 10 < 2 ^ N.of_nat f).
+    { apply N.div_lt_upper_bound; [lia|]. rewrite Nat2N.inj_succ, N.pow_succ_r' in Hn. lia. }
+    assert (Hf' : (0 < f)%nat).
+    { destruct f; [|lia]. change (2 ^ N.of_nat 0) with 1 in Hq. revert Hq E. generalize (n / 10). intros q Hq E. lia. }
+    destruct (IH (n / 10) ((48 + n mod 10) :: acc) Hq Hf') as (k & Hk).
+    exists (k + 1). intro a'. rewrite Hk. cbn [dec_digits]. rewrite digit_is_digit by assumption. f_equal.
+    rewrite N.pow_add_r, N.pow_1_r. assert (X : forall x, 48 + x - 48 = x) by (intro x; lia). rewrite X.
+    assert (D : n = 10 * (n / 10) + n mod 10) by (apply N.div_mod; lia).
+    revert D. generalize (n / 10) (n mod 10). intros q r D. rewrite D. ring.
+Qed.
+
+Lemma dec_render_fuel_all_digits f : forall n acc,
+  forallb is_digit acc = true -> forallb is_digit (dec_render_fuel f n acc) = true.
+Proof.
+  induction f as [|f IH]; intros n acc Ha; cbn [dec_render_fuel]; [exact Ha|].
+  assert (Hd : forallb is_digit ((48 + n mod 10) :: acc) = true).
+  { cbn [forallb]. rewrite Ha, digit_is_digit; [reflexivity|]. apply N.mod_lt. lia. }
+  destruct (n / 10 =? 0); [exact Hd | now apply IH].
+Qed.
+
+Lemma dec_render_fuel_length f : forall n acc, (length acc <= length (dec_render_fuel f n acc))%nat.
+Proof.
+  induction f as [|f IH]; intros n acc; cbn [dec_render_fuel]; [lia|].
+  destruct (n / 10 =? 0); [cbn [length]; lia|]. specialize (IH (n / 10) ((48 + n mod 10) :: acc)). cbn [length] in IH. lia.
+Qed.
+
+Lemma dec_render_not_nil n : dec_render n <> [].
+Proof.
+  unfold dec_render. cbn [dec_render_fuel]. destruct (n / 10 =? 0); [discriminate|].
+  intro E. pose proof (dec_render_fuel_length (N.to_nat (N.log2 n)) (n / 10) [48 + n mod 10]) as H.
+  rewrite E in H. cbn [length] in H. lia.
+Qed.
+
+Lemma dec_render_all_digits n : forallb is_digit (dec_render n) = true.
+Proof. apply dec_render_fuel_all_digits. reflexivity. Qed.
+
+Lemma dec_digits_dec_render n : dec_digits 0 (dec_render n) = Some n.
+Proof.
+  unfold dec_render.
+  assert (Hn : n < 2 ^ N.of_nat (S (N.to_nat (N.log2 n)))).
+  { rewrite Nat2N.inj_succ, N2Nat.id. destruct n as [|p]; [reflexivity|]. apply N.log2_spec. lia. }
+  destruct (dec_render_fuel_digits (S (N.to_nat (N.log2 n))) n [] Hn) as (k & Hk); [lia|].
+  rewrite Hk. cbn [dec_digits]. f_equal.
+Qed.
+
+Lemma strip_plus_digit d r : is_digit d = true -> match d :: r with 43 :: r' => r' | _ => d :: r end = d :: r.
+Proof.
+  intro H. destruct d as [|p]; [reflexivity|].
+  do 7 (try (destruct p as [p|p|]; try reflexivity)). all: vm_compute in H; discriminate.
+Qed.
+
+(* what usize's Display writes, usize's FromStr reads back *)
+Lemma parse_unsigned_dec_render max n : n <= max -> parse_unsigned max (dec_render n) = Some n.
+Proof.
+  intro H. unfold parse_unsigned. pose proof (dec_render_not_nil n) as Hne. pose proof (dec_render_all_digits n) as Hd.
+  pose proof (dec_digits_dec_render n) as Hv.
+  destruct (dec_render n) as [|d r]; [contradiction|]. cbn [forallb] in Hd. apply andb_true_iff in Hd as [Hd _].
+  rewrite strip_plus_digit by assumption. rewrite Hv. apply N.leb_le in H. now rewrite H.
+Qed.
+
+Lemma parse_usize_dec_render n : n <= usize_max -> parse_usize (dec_render n) = Some n.
+Proof. apply parse_unsigned_dec_render. Qed.
